@@ -143,6 +143,17 @@ func runCheck(id, tier string, ignoreKnown, verbose bool) int {
 		genErrs[unit] = append(genErrs[unit], e)
 	}
 	sort.Strings(genUnits)
+	if len(genUnits) > 0 {
+		// obligations of a unit whose generation failed are meaningless (error terms inside):
+		// the unit is reported once, as <unit>/contract-applies
+		var kept []*Obligation
+		for _, o := range obls {
+			if _, bad := genErrs[o.Unit]; !bad {
+				kept = append(kept, o)
+			}
+		}
+		obls = kept
+	}
 	if len(obls) == 0 && len(genUnits) == 0 {
 		fmt.Fprintf(os.Stderr, "no obligations generated for %s (vacuity guard)\n", id)
 		return 2
